@@ -31,10 +31,10 @@ class export_options_validator:
 from contracts.shapes import mk_tree
 
 
-def mk_indexed_document(g):
+def mk_indexed_document(g, node_builder=None):
     """a Document as Importer.run leaves it: any number of stages, M measure starts at strictly increasing stages inside the tree"""
     from kernpy.core.document import Document
-    tree = mk_tree(g)
+    tree = mk_tree(g, node_builder)
     # the document invariant of Importer.run: every measure start is a stage of the tree (after the root stage), strictly increasing
     mst = g.seq('mst', lambda e: e.int('stage', 1), lambda s: s < len(tree.stages), lambda a, b: a < b)
     return g.new(Document, {'tree': tree, 'measure_start_tree_stages': mst, 'page_bounding_boxes': {}, 'header_stage': 1}, None)
